@@ -1,7 +1,7 @@
 (* C11, last clause: no sequence of well-formed API calls, whatever the callbacks return, makes the node model panic.
    [nx] is the exact-state triple that EXCLUDES the Panic outcome (Mismatch = a script the callbacks cannot produce,
    Fatal and OutOfFuel remain accepted).  [Sz] is the sizing invariant that makes every checked table access succeed. *)
-From DbftV Require Export Gates.
+From DbftV Require Export Gates CvCount.
 
 Definition nx {A} (s0 : nstate) (x : M A) (Q : A -> nstate -> tr_t -> Prop) := hoare (eq s0) x Q.
 Lemma nx_hx {A} s0 (x : M A) Q : nx s0 x Q -> hx s0 x Q. Proof. apply hoare_hoarep. Qed.
@@ -130,7 +130,9 @@ Record Sz (s : nstate) : Prop := {
   sz_pi : 0 <= PrimaryIndex s < N s;
   sz_pf : PrimaryIndex s = primary_of s (ViewNumber s);
   sz_cmi : idx_ok (N s) (CommitPayloads s);
-  sz_pci : idx_ok (N s) (PreCommitPayloads s) }.
+  sz_pci : idx_ok (N s) (PreCommitPayloads s);
+  (* C04: in a view above 0 the node holds M kept change-view requests for that view or above *)
+  sz_vi : 0 < ViewNumber s -> Mq s <= cnt_ge (ViewNumber s) (LastChangeViewPayloads s) }.
 
 Lemma zlen_set {T} (l l' : list T) i v : set_chk l i v = Some l' -> zlen l' = zlen l.
 Proof. intros H. unfold zlen. erewrite set_chk_length; eauto. Qed.
@@ -222,8 +224,8 @@ Qed.
 (* Sz after a record update that leaves the sized components alone *)
 Ltac sz_keep H :=
   let H0 := fresh "H0" in
-  destruct H as [H0 ? ? ? ? ? ? ? ? ? ? ? ?]; destruct H0; constructor; [constructor|..];
-  unfold N, primary_of, idx_ok in *; cbn in *; try assumption.
+  destruct H as [H0 ? ? ? ? ? ? ? ? ? ? ? ? ?]; destruct H0; constructor; [constructor|..];
+  unfold Mq, F, N, primary_of, idx_ok in *; cbn in *; try assumption.
 Ltac kk := unfold K; cbn; repeat split; reflexivity.
 
 Definition NP {A} (x : M A) : Prop := forall s0, Sz s0 -> nx s0 x (fun _ s _ => Sz s /\ K s0 s).
@@ -341,7 +343,7 @@ Proof.
   pose proof (zlen_set _ _ _ _ Hl) as Hz.
   assert (Hr : 0 <= gorem (rtt_idx s0 + 1) rttLength < rttLength).
   { destruct H as [[_ _ _ Hi]]. unfold gorem, rttLength in *. pose proof (Z.rem_bound_pos (rtt_idx s0 + 1) 70 ltac:(lia) ltac:(lia)). lia. }
-  destruct H as [H0 ? ? ? ? ? ? ? ? ? ? ? ?]; destruct H0; constructor; [constructor|..]; unfold N, primary_of, idx_ok in *; cbn in *; try assumption; try lia.
+  destruct H as [H0 ? ? ? ? ? ? ? ? ? ? ? ? ?]; destruct H0; constructor; [constructor|..]; unfold Mq, F, N, primary_of, idx_ok in *; cbn in *; try assumption; try lia.
 Qed.
 Hint Resolve np_rtt : npdb.
 Lemma np_broadcast m : NP (broadcast m). Proof. unfold broadcast. np_go. Qed.
@@ -384,13 +386,13 @@ Proof.
     ntset. { rewrite (sz_cm _ S1), (K_N _ _ K1), <- (sz_cm _ Hs). exact Hi. }
     apply n_modify_last. split; [|eapply K_trans; [exact Hk|]; eapply K_trans; [exact K1|kk]].
     pose proof (zlen_set _ _ _ _ Hl) as Hz. assert (Hok : idx_ok (N s1) l) by (eapply idx_ok_set; [exact (sz_cmi _ S1)| |exact Hl]; intros ? [=]).
-    destruct S1 as [H0' ? ? ? ? ? ? ? ? ? ? ? ?]; destruct H0'; constructor; [constructor|..]; unfold N, primary_of, idx_ok in *; cbn in *; try assumption; try lia. }
+    destruct S1 as [H0' ? ? ? ? ? ? ? ? ? ? ? ? ?]; destruct H0'; constructor; [constructor|..]; unfold Mq, F, N, primary_of, idx_ok in *; cbn in *; try assumption; try lia. }
   cbn. intros _ s n H. exact H.
 Qed.
 Hint Resolve np_verifyCommits : npdb.
 
 Ltac sz_split S := let H0' := fresh "H0" in
-  destruct S as [H0' ? ? ? ? ? ? ? ? ? ? ? ?]; destruct H0'; constructor; [constructor|..]; unfold N, primary_of, idx_ok in *; cbn in *; try assumption; try lia.
+  destruct S as [H0' ? ? ? ? ? ? ? ? ? ? ? ? ?]; destruct H0'; constructor; [constructor|..]; unfold Mq, F, N, primary_of, idx_ok in *; cbn in *; try assumption; try lia.
 
 Lemma np_verifyPreCommits : NP verifyPreCommitPayloadsAgainstPreBlock.
 Proof.
@@ -585,22 +587,33 @@ Proof. intros Hx Hs Hf. eapply n_call; [apply (Hx s0 Hs)|]. intros a s1 n1 S1. a
 Lemma NP_NQ {A} (x : M A) : NP x -> NQ x.
 Proof. intros H s0 Hs. eapply n_conseq; [apply (H s0 Hs)|]. cbn. intros a s n [S1 _]. exact S1. Qed.
 
+(* entering view v > 0 requires M requests for v or above in ChangeViewPayloads (checkChangeView has just counted them) *)
+Definition CVq (view : Z) (s : nstate) : Prop := 0 < view -> Mq s <= cnt_ge view (ChangeViewPayloads s).
+Definition ICok (ic : Z -> Z -> M unit) : Prop := forall v ts s0, Sz s0 -> CVq v s0 -> nx s0 (ic v ts) (fun _ s _ => Sz s).
+
 Section Rec.
 Variable ic : Z -> Z -> M unit.
-Hypothesis Hic : forall v ts, NQ (ic v ts).
+Hypothesis Hic : ICok ic.
 
 Lemma nq_checkChangeView view : NQ (checkChangeView ic view).
 Proof.
-  intros s0 H. unfold checkChangeView. apply n_get. destruct (_ >=? _); [apply n_ret; exact H|]. cbv zeta. destruct (_ <? _); [apply n_ret; exact H|].
+  intros s0 H. unfold checkChangeView. apply n_get. destruct (_ >=? _); [apply n_ret; exact H|]. cbv zeta.
+  destruct (_ <? Mq s0) eqn:Ec; [apply n_ret; exact H|]. apply Z.ltb_ge in Ec. fold (cnt_ge view (ChangeViewPayloads s0)) in Ec.
   eapply n_call; [apply n_WatchOnly|]. intros wo s1 n1 [-> Hw].
-  eapply n_call with (Qx := fun _ s _ => Sz s).
-  { destruct wo; [apply n_ret; exact H|]. specialize (Hw eq_refl). apply n_get.
+  eapply n_call with (Qx := fun _ s _ => Sz s /\ Validators s = Validators s0 /\ cnt_ge view (ChangeViewPayloads s0) <= cnt_ge view (ChangeViewPayloads s)).
+  { destruct wo; [apply n_ret; split; [exact H|split; [reflexivity|lia]]|]. specialize (Hw eq_refl). apply n_get.
     ntget. { rewrite (sz_cv _ H). pose proof (sz_my _ H). lia. }
-    destruct x as [m|]; [|apply n_ret; exact H]. destruct (_ <? _); [|apply n_ret; exact H].
-    unfold ask_now. apply n_ask. intros t c Hc.
-    eapply n_npi; [apply np_makeChangeView|exact H|exact Hw|]. intros msg s2 n2 S2 K2.
-    eapply n_np_last; [apply np_broadcast|exact S2|]. intros [] s3 n3 S3 K3. exact S3. }
-  intros [] s2 n2 S2. apply n_get. eapply n_conseq; [apply (Hic _ _ s2 S2)|]. auto.
+    destruct x as [m|]; [|apply n_ret; split; [exact H|split; [reflexivity|lia]]]. destruct (cv_newview m <? view) eqn:Em; [|apply n_ret; split; [exact H|split; [reflexivity|lia]]].
+    unfold ask_now. apply n_ask. intros t c Hc. unfold makeChangeView. apply n_assoc. apply n_get. cbv zeta. apply n_assoc.
+    ntset. { rewrite (sz_cv _ H). pose proof (sz_my _ H). lia. }
+    apply n_assoc. apply n_modify. apply n_ret_bind.
+    match goal with |- nx ?st _ _ => set (s2 := st) end.
+    assert (S2 : Sz s2) by (unfold s2; pose proof (zlen_set _ _ _ _ Hl) as Hz; sz_split H).
+    unfold broadcast. apply n_get. unfold ask_unit. apply n_ask_last. intros [] c2 Hc2.
+    split; [exact S2|split; [reflexivity|]]. unfold s2. cbn [ChangeViewPayloads set]. unfold cnt_ge.
+    eapply count_set_ge; [exact Hl|exact Hx|]. cbn. rewrite Z.geb_leb. apply Z.leb_gt. apply Z.ltb_lt in Em. exact Em. }
+  intros [] s2 n2 (S2 & V2 & C2). apply n_get. eapply n_conseq; [apply (Hic _ _ s2 S2)|auto].
+  intros _. unfold Mq, F, N in *. rewrite V2. lia.
 Qed.
 
 Lemma nq_sendChangeView r : NQ (sendChangeView ic r).
@@ -865,7 +878,7 @@ Proof.
      | _ => ib end)).
   { apply (Forall_assoc_put wf_inbox); [exact (sz_cache _ (sz_0 _ H))|]. destruct Hib as (W1 & W2 & W3 & W4).
     destruct (p_type m); unfold wf_inbox; cbn; repeat split; auto; apply (Forall_assoc_put wfp); auto. }
-  destruct H as [H0 ? ? ? ? ? ? ? ? ? ? ? ?]; destruct H0; constructor; [constructor|..]; unfold N, primary_of, idx_ok in *; cbn in *; try assumption.
+  destruct H as [H0 ? ? ? ? ? ? ? ? ? ? ? ? ?]; destruct H0; constructor; [constructor|..]; unfold Mq, F, N, primary_of, idx_ok in *; cbn in *; try assumption.
 Qed.
 
 Lemma nq_receive_common (d : payload -> M unit) msg s0 : Sz s0 -> wfp msg ->
@@ -982,9 +995,10 @@ Qed.
 
 Record Mid (view : Z) (s : nstate) : Prop := {
   md_0 : Sz0 s; md_n : 0 < N s; md_lcv : zlen (LastChangeViewPayloads s) = N s; md_ls : zlen (LastSeenMessage s) = N s;
-  md_keep : view <> 0 -> zlen (PreCommitPayloads s) = N s /\ zlen (CommitPayloads s) = N s /\ idx_ok (N s) (CommitPayloads s) /\ idx_ok (N s) (PreCommitPayloads s) }.
+  md_keep : view <> 0 -> zlen (PreCommitPayloads s) = N s /\ zlen (CommitPayloads s) = N s /\ idx_ok (N s) (CommitPayloads s) /\ idx_ok (N s) (PreCommitPayloads s);
+  md_vi : 0 < view -> Mq s <= cnt_ge view (LastChangeViewPayloads s) }.
 
-Definition PreIC (view : Z) (s : nstate) : Prop := Sz0 s /\ (view <> 0 -> Sz s).
+Definition PreIC (view : Z) (s : nstate) : Prop := Sz0 s /\ (view <> 0 -> Sz s /\ CVq view s).
 
 Lemma n_reset_A view (ts : Z) s0 : PreIC view s0 ->
   nx s0 ((if view =? 0 then
@@ -1015,18 +1029,20 @@ Proof.
                       s <| LastChangeViewPayloads := empty_tbl n |> <| LastSeenMessage := empty_tbl n |>
                         <| blockProcessed := false |> <| preBlockProcessed := false |>)) (fun _ s' _ => Mid view s')).
     { intros s Hs Hn. apply n_modify_last. cbv zeta. destruct Hs. constructor; [constructor|..]; unfold N, empty_tbl in *; cbn; try assumption.
-      - apply zlen_replicate. lia. - apply zlen_replicate. lia. - intros Hne. contradiction. }
+      - apply zlen_replicate. lia. - apply zlen_replicate. lia. - intros Hne. contradiction. - intros Hv. lia. }
     destruct (cfg_dyn cfg).
     + apply n_assoc. apply n_ask. intros mx c5 H5. apply n_modify. apply Hfin; [destruct P0; constructor; cbn; assumption|unfold N; cbn; exact Hvs].
     + apply n_ret_bind. apply Hfin; [destruct P0; constructor; cbn; assumption|unfold N; cbn; exact Hvs].
-  - apply Z.eqb_neq in Ev. specialize (P1 Ev). apply n_get.
+  - apply Z.eqb_neq in Ev. destruct (P1 Ev) as [P1s P1q]. apply n_get.
+    assert (L1 : length (LastChangeViewPayloads s0) = length (ChangeViewPayloads s0)) by (pose proof (sz_cv _ P1s); pose proof (sz_lcv _ P1s); unfold N, zlen in *; lia).
+    assert (L2 : length (Validators s0) = length (ChangeViewPayloads s0)) by (pose proof (sz_cv _ P1s); unfold N, zlen in *; lia).
     eapply n_call.
-    { apply n_keep; cbn [ChangeViewPayloads LastChangeViewPayloads Validators set].
-      - pose proof (sz_cv _ P1). unfold N, zlen in *. lia.
-      - pose proof (sz_cv _ P1). pose proof (sz_lcv _ P1). unfold N, zlen in *. lia. }
-    intros l s1 n1 [-> Hl]. cbn [LastChangeViewPayloads set] in Hl. apply n_modify_last.
-    destruct P1 as [Q0 ? ? ? ? ? ? ? ? ? ? ? ?]. destruct Q0. constructor; [constructor|..]; unfold N, zlen, idx_ok in *; cbn; try assumption; try lia.
-    intros _. split; [assumption|split; [assumption|split; assumption]].
+    { apply n_conj; [apply n_keep; [lia|exact L1]|apply keep_spec]. }
+    intros l s1 n1 [[-> Hl] [_ Hk]]. apply n_modify_last.
+    assert (El : l = keepf view (ChangeViewPayloads s0)) by (apply Hk; [exact L1|intros j Hj; lia|exact L2]).
+    destruct P1s as [Q0 ? ? ? ? ? ? ? ? ? ? ? ? ?]. destruct Q0. constructor; [constructor|..]; unfold N, zlen, idx_ok in *; cbn; try assumption; try lia.
+    + intros _. split; [assumption|split; [assumption|split; assumption]].
+    + intros Hv. rewrite El, cnt_keepf. apply (P1q Hv).
 Qed.
 
 Lemma GetPrimaryIndex_eq' s v : 0 < N s -> GetPrimaryIndex s v = ret (primary_of s v).
@@ -1044,28 +1060,35 @@ Proof.
     apply andb_true_iff in E2. destruct E2 as [E2 _]. apply andb_true_iff in E2. destruct E2 as [A B]. apply Z.leb_le in A. apply Z.ltb_lt in B. left. lia.
 Qed.
 
+(* all tables but the preparations and the primary in place *)
+Record Tab (s : nstate) : Prop := {
+  tb_pc : zlen (PreCommitPayloads s) = N s; tb_cm : zlen (CommitPayloads s) = N s;
+  tb_cmi : idx_ok (N s) (CommitPayloads s); tb_pci : idx_ok (N s) (PreCommitPayloads s) }.
+
 Lemma n_reset view ts s0 : PreIC view s0 -> nx s0 (reset cfg view ts) (fun _ s _ => Sz s).
 Proof.
   intros HP. unfold reset. apply n_modify. unfold unsubscribeFromTransactions at 1. apply n_modify.
   match goal with |- nx ?st _ _ => set (s0' := st) end.
   assert (HP' : PreIC view s0').
-  { destruct HP as [P0 P1]. split; [destruct P0; constructor; cbn; assumption|]. intros Hv. specialize (P1 Hv). pose proof (sz_n _ P1). unfold s0'. sz_split P1. }
+  { destruct HP as [P0 P1]. split; [destruct P0; constructor; cbn; assumption|]. intros Hv. destruct (P1 Hv) as [P1s P1q]. pose proof (sz_n _ P1s).
+    split; [unfold s0'; sz_split P1s|exact P1q]. }
   eapply n_call; [apply (n_reset_A view ts s0' HP')|]. intros [] s1 n1 M1. apply n_get.
   apply n_ask. intros ik c Hc. apply sel_KeyPair in Hc.
   assert (Hmy : -1 <= fst ik < N s1) by (pose proof (md_n _ _ M1); destruct Hc; lia).
   apply n_modify. apply n_modify.
-  eapply n_call with (Qx := fun _ s _ => Mid 1 s /\ N s = N s1 /\ MyIndex s = fst ik /\ zlen (ChangeViewPayloads s) = N s /\ BlockIndex s = BlockIndex s1).
+  eapply n_call with (Qx := fun _ s _ => Mid view s /\ Tab s /\ N s = N s1 /\ MyIndex s = fst ik /\ zlen (ChangeViewPayloads s) = N s /\ BlockIndex s = BlockIndex s1).
   { assert (Hcv : zlen (@empty_tbl payload (N s1)) = N s1) by (apply zlen_replicate; pose proof (md_n _ _ M1); lia).
     destruct (view =? 0) eqn:Ev.
-    - apply n_modify_last. destruct M1 as [Q0 ? ? ? ?]. destruct Q0. unfold N, empty_tbl in *. cbn.
-      split; [|split; [reflexivity|split; [reflexivity|split; [exact Hcv|reflexivity]]]].
-      constructor; [constructor|..]; unfold N, empty_tbl; cbn; try assumption.
-      intros _. rewrite !zlen_replicate by lia. split; [reflexivity|split; [reflexivity|split; apply tall_empty]].
-    - apply n_ret. apply Z.eqb_neq in Ev. destruct M1 as [Q0 ? ? ? Hk]. destruct Q0. destruct (Hk Ev) as (A & B & C & D). unfold N, empty_tbl, idx_ok in *. cbn.
-      split; [|split; [reflexivity|split; [reflexivity|split; [exact Hcv|reflexivity]]]].
-      constructor; [constructor|..]; unfold N, idx_ok; cbn; try assumption.
-      intros _. split; [assumption|split; [assumption|split; assumption]]. }
-  intros [] s2 n2 (M2 & N2 & My2 & Cv2 & B2). apply n_modify. apply n_get.
+    - apply Z.eqb_eq in Ev. apply n_modify_last. destruct M1 as [Q0 ? ? ? ? Hvi]. destruct Q0. unfold N, empty_tbl in *. cbn.
+      split; [|split; [|split; [reflexivity|split; [reflexivity|split; [exact Hcv|reflexivity]]]]].
+      + constructor; [constructor|..]; unfold N, empty_tbl; cbn; try assumption.
+        * intros Hne. contradiction.
+      + constructor; unfold N; cbn; rewrite ?zlen_replicate by lia; try reflexivity; apply tall_empty.
+    - apply n_ret. apply Z.eqb_neq in Ev. destruct M1 as [Q0 ? ? ? Hk Hvi]. destruct Q0. destruct (Hk Ev) as (A & B & C & D). unfold N, empty_tbl, idx_ok in *. cbn.
+      split; [|split; [|split; [reflexivity|split; [reflexivity|split; [exact Hcv|reflexivity]]]]].
+      + constructor; [constructor|..]; unfold N, idx_ok; cbn; try assumption.
+      + constructor; unfold N, idx_ok; cbn; assumption. }
+  intros [] s2 n2 (M2 & T2 & N2 & My2 & Cv2 & B2). apply n_modify. apply n_get.
   match goal with |- nx ?st _ _ => set (s3 := st) end.
   assert (N3 : N s3 = N s2) by reflexivity.
   rewrite (GetPrimaryIndex_eq' s3 view) by (rewrite N3; apply (md_n _ _ M2)). apply n_ret_bind. apply n_modify. apply n_get.
@@ -1073,9 +1096,9 @@ Proof.
   pose proof (md_n _ _ M2) as Hn2. pose proof (primary_of_range s3 view ltac:(rewrite N3; exact Hn2)) as Hpr.
   assert (Hprep : zlen (@empty_tbl payload (N s2)) = N s2) by (apply zlen_replicate; lia).
   assert (S4 : Sz s4).
-  { destruct M2 as [Q0 ? ? ? Hk]. destruct Q0. destruct (Hk ltac:(lia)) as (A & B & C & D).
-    unfold s4, s3, N, empty_tbl, idx_ok, primary_of in *. cbn in *.
-    constructor; [constructor|..]; unfold N, idx_ok, primary_of; cbn; try assumption; try lia. reflexivity. }
+  { destruct M2 as [Q0 ? ? ? Hk Hvi]. destruct Q0. destruct T2 as [A B C D].
+    unfold s4, s3, Mq, F, N, empty_tbl, idx_ok, primary_of in *. cbn in *.
+    constructor; [constructor|..]; unfold Mq, F, N, idx_ok, primary_of; cbn; try assumption; try lia. reflexivity. }
   destruct (MyIndex s4 >=? 0) eqn:Em.
   - rewrite Z.geb_leb in Em. apply Z.leb_le in Em.
     ntset. { rewrite (sz_ls _ S4). pose proof (sz_my _ S4). lia. }
@@ -1086,7 +1109,7 @@ Qed.
 Lemma cache_wf_filter c (f : Z * inbox -> bool) : cache_wf c -> cache_wf (filter f c).
 Proof. intros H. apply Forall_forall. intros x Hx. apply filter_In in Hx. unfold cache_wf in H. rewrite Forall_forall in H. apply H, Hx. Qed.
 
-Lemma nq_ic_body ic view ts s0 : (forall v t, NQ (ic v t)) -> PreIC view s0 ->
+Lemma nq_ic_body ic view ts s0 : ICok ic -> PreIC view s0 ->
   nx s0 (initializeConsensus_body cfg ic view ts) (fun _ s _ => Sz s).
 Proof.
   intros Hic HP. unfold initializeConsensus_body.
@@ -1098,7 +1121,7 @@ Proof.
   match goal with |- nx ?st _ _ => set (s4 := st) end.
   assert (S4 : Sz s4).
   { pose proof (cache_wf_filter (cache s3) (fun kv => negb (fst kv <? BlockIndex s3)) (sz_cache _ (sz_0 _ S3))) as Hf. unfold s4.
-    destruct S3 as [Q0 ? ? ? ? ? ? ? ? ? ? ? ?]; destruct Q0; constructor; [constructor|..]; unfold N, primary_of, idx_ok in *; cbn in *; try assumption. }
+    destruct S3 as [Q0 ? ? ? ? ? ? ? ? ? ? ? ? ?]; destruct Q0; constructor; [constructor|..]; unfold Mq, F, N, primary_of, idx_ok in *; cbn in *; try assumption. }
   eapply n_call with (Qx := fun _ s _ => Sz s).
   { destruct (assoc_get (cache s4) (BlockIndex s4)) as [ib|] eqn:Eib; [|apply n_ret; exact S4].
     pose proof (Forall_assoc_get wf_inbox _ _ _ (sz_cache _ (sz_0 _ S4)) Eib) as (W1 & W2 & W3 & W4).
@@ -1106,7 +1129,7 @@ Proof.
     match goal with |- nx ?st _ _ => set (s5 := st) end.
     assert (S5 : Sz s5).
     { pose proof (Forall_assoc_del wf_inbox (cache s4) (BlockIndex s4) (sz_cache _ (sz_0 _ S4))) as Hd. unfold s5.
-      destruct S4 as [Q0 ? ? ? ? ? ? ? ? ? ? ? ?]; destruct Q0; constructor; [constructor|..]; unfold N, primary_of, idx_ok in *; cbn in *; try assumption. }
+      destruct S4 as [Q0 ? ? ? ? ? ? ? ? ? ? ? ? ?]; destruct Q0; constructor; [constructor|..]; unfold Mq, F, N, primary_of, idx_ok in *; cbn in *; try assumption. }
     eapply n_nq; [apply (nq_replay_map ic Hic _ _ W1)|exact S5|]. intros [] s6 n6 S6.
     eapply n_nq; [apply (nq_replay_map ic Hic _ _ W2)|exact S6|]. intros [] s7 n7 S7.
     eapply n_nq; [apply (nq_replay_map ic Hic _ _ W3)|exact S7|]. intros [] s8 n8 S8.
@@ -1121,10 +1144,12 @@ Qed.
 Lemma nq_initializeConsensus fuel : forall view ts s0, PreIC view s0 -> nx s0 (initializeConsensus cfg fuel view ts) (fun _ s _ => Sz s).
 Proof.
   induction fuel as [|f IH]; intros view ts s0 HP; cbn [initializeConsensus]; [apply n_oof|].
-  apply nq_ic_body; [|exact HP]. intros v t s Ss. apply IH. split; [apply (sz_0 _ Ss)|intros _; exact Ss].
+  apply nq_ic_body; [|exact HP]. intros v t s Ss Hq. apply IH. split; [apply (sz_0 _ Ss)|intros _; split; assumption].
 Qed.
-Lemma nq_init view ts : NQ (init cfg view ts).
-Proof. intros s0 H. apply nq_initializeConsensus. split; [apply (sz_0 _ H)|intros _; exact H]. Qed.
+Lemma ic_init : ICok (init cfg).
+Proof. intros v ts s0 H Hq. apply nq_initializeConsensus. split; [apply (sz_0 _ H)|intros _; split; assumption]. Qed.
+Lemma nq_init0 ts : NQ (init cfg 0 ts).
+Proof. intros s0 H. apply ic_init; [exact H|intros Hv; lia]. Qed.
 
 (* ---------------- the API ---------------- *)
 (* before Start only the round-trip table must be in place (it is, in a fresh instance) *)
@@ -1141,7 +1166,7 @@ Proof.
   eapply n_call; [apply n_WatchOnly|]. intros wo s2 n2 [-> Hw]. destruct wo; [apply n_ret; exact S1|].
   eapply n_npi_last; [apply np_sendPrepareRequest|exact S1|exact (Hw eq_refl)|]. intros [] s3 n3 S3 _. exact S3.
 Qed.
-Lemma nq_Reset ts : NQ (Reset cfg ts). Proof. apply nq_init. Qed.
+Lemma nq_Reset ts : NQ (Reset cfg ts). Proof. apply nq_init0. Qed.
 
 Lemma nq_OnTransaction t : NQ (OnTransaction cfg t).
 Proof.
@@ -1152,7 +1177,7 @@ Proof.
   eapply n_call; [apply n_own_slot; rewrite (sz_pc _ S1); apply (sz_my _ S1)|]. intros x s2 n2b [-> _]. destruct x; [apply n_ret; exact S1|].
   eapply n_call; [apply n_own_slot; rewrite (sz_cm _ S1); apply (sz_my _ S1)|]. intros x s2 n2c [-> _]. destruct x; [apply n_ret; exact S1|].
   apply n_get. destruct (_ || _); [apply n_ret; exact S1|]. cbv zeta. destruct (_ <? _); [apply n_ret; exact S1|]. apply n_modify.
-  apply (nq_addTransaction (init cfg) nq_init).
+  apply (nq_addTransaction (init cfg) ic_init).
   - sz_keep S1.
   - destruct Hrs as [q Hq]. exists q. exact Hq.
 Qed.
@@ -1183,7 +1208,7 @@ Proof.
       eapply n_np; [apply np_subscribe|exact S4|]. intros [] s5 n5 S5 K5. apply n_get.
       eapply n_np; [apply np_changeTimer|exact S5|]. intros [] s6 n6 S6 K6. apply n_ret. exact S6. }
   intros stop s5 n5 S5. destruct stop; [apply n_ret; exact S5|].
-  eapply n_conseq; [apply (nq_sendChangeView (init cfg) nq_init _ s5 S5)|]. auto.
+  eapply n_conseq; [apply (nq_sendChangeView (init cfg) ic_init _ s5 S5)|]. auto.
 Qed.
 Lemma nq_OnTimeout h v : NQ (OnTimeout cfg h v). Proof. apply nq_onTimeout. Qed.
 Lemma nq_OnNewTransaction : NQ (OnNewTransaction cfg).
@@ -1202,7 +1227,7 @@ Proof.
   { destruct ev; cbn [run_event].
     - apply n_Start. right. exact HS.
     - apply nq_Reset. exact HS.
-    - apply (nq_OnReceive (init cfg) nq_init p Hw st HS).
+    - apply (nq_OnReceive (init cfg) ic_init p Hw st HS).
     - apply nq_OnTimeout. exact HS.
     - apply nq_OnTransaction. exact HS.
     - apply nq_OnNewTransaction. exact HS. }
